@@ -40,7 +40,7 @@ type run struct {
 
 	chans      []*muc.Channel
 	chMu       sync.Mutex // guards chans against the callbacks (which use the channels from the serve goroutine)
-	jst        []string // idle parked insel
+	jst        []string   // idle parked insel
 	lst        []string
 	jcancel    []context.CancelFunc
 	lcancel    []context.CancelFunc
@@ -1422,6 +1422,9 @@ func Run(r *common.Run) error {
 		}
 		for _, l := range lines {
 			f := strings.Fields(l)
+			if len(f) >= 3 && f[1] == "liveoverlap" {
+				liveOverlapCase(r, f[2])
+			}
 			if len(f) >= 3 && f[1] == "handoff" {
 				handoffCase(r, f[2] == "true")
 			}
@@ -1432,6 +1435,9 @@ func Run(r *common.Run) error {
 		return nil
 	}
 	runHandoff(r)
+	if !r.Race() {
+		runLiveOverlap(r)
+	}
 	r.Mark("case concurrent 0")
 	runConcurrent(r, 3, r.Pick(10, 40))
 	if r.Race() {
